@@ -35,6 +35,17 @@ def setup(P):
     import param
     _st['param'] = param
 
+    class Peek(param.Number):
+        """A user-defined Parameter type whose validation looks at the namespace of the class (or object) it belongs to - as a
+        type that validates one parameter against another would."""
+        def _validate(self, val):
+            owner = self.owner
+            if owner is not None:
+                list(owner.param)
+                owner.param.objects('existing')
+            super()._validate(val)
+    _st['Peek'] = Peek
+
 
 def tok():
     _tok[0] += 1
@@ -58,7 +69,13 @@ def run_case(idx, rng, P, rep):
     NAMES = ['x', 'y', 'z']
 
     def new_param(kind=None, default=None):
-        kind = kind or rng.choice(['Number', 'String', 'Parameter', 'Integer'])
+        kind = kind or rng.choice(['Number', 'String', 'Parameter', 'Integer', 'Peek', 'USel'])
+        if kind == 'USel':
+            # a Selector that takes (and remembers) whatever it is given, with one Parameter object shared by all instances
+            d_ = tok() if default is None else default
+            return param.Selector(objects=[d_], default=d_, check_on_set=False, per_instance=False), kind
+        if kind == 'Peek':
+            return _st['Peek'](default=tok() if default is None else default, bounds=(0, None), allow_None=True), kind
         if kind == 'String':
             return param.String(default=f's{tok()}' if default is None else default), kind
         if kind in ('Number', 'Integer'):
@@ -176,6 +193,9 @@ def run_case(idx, rng, P, rep):
                 if n not in listed:
                     viol('instance/not-listed', f'{step}: inst{ii}.{n} not in inst.param')
                     continue
+                if not gov[n].per_instance and (o.param[n] is not gov[n] or o.param.objects('existing').get(n) is not gov[n]):
+                    viol('instance/param-object-not-governing', f'{step}: inst{ii}.param[{n!r}] is not the (shared, per_instance=False) Parameter '
+                         f'object that governs {K.__name__}.{n}')
                 if vals.get(n, '<missing>') != attr:
                     viol('instance/values-differ', f'{step}: inst{ii}({K.__name__}).param.values()[{n!r}]={vals.get(n, "<missing>")!r} '
                          f'but getattr={attr!r} (per-instance Parameter copy: {n in touched})')
